@@ -74,3 +74,111 @@ def posterior_native(vc):
                           y_cov=np.diag(np.asarray(pb["y_err"]) ** 2))
         mu3, sd3 = gp3(q)
         vc.ensures("y_err_equals_diagonal_y_cov", bool(np.array_equal(gp3.sig, gp.sig) and np.allclose(mu3, mu_p) and np.allclose(sd3, sd_p)))
+
+
+# ================================================================================================
+# proof layer: the real set_hyperparameters / __call__ / build_posterior / check_error_data bodies over
+# abstract matrices (pyvc.matalg); kernels and means are ghost objects under their C10 contracts
+# ================================================================================================
+import ast
+from pyvc import sym as S
+from pyvc.sym import Sym, Unsupported
+from pyvc.tensor import Tensor, SymList
+from pyvc.loops import LoopSpec
+from pyvc import matalg as M
+
+REG = "inference.gp.regression"
+
+
+@contract("C02", "set_hyperparameters", native=False, replay_with="posterior_native")
+def set_hyperparameters(vc):
+    """after set_hyperparameters(theta): L is the Cholesky factor of K(theta_cov) + sig and alpha = (K + sig)^-1 (y - m)"""
+    from contracts.gp_matrix import GpState
+    st = GpState(vc)
+    gp = st.regressor(fitted=False)
+    vc.call(gp, "set_hyperparameters", st.theta)
+    vc.ensures("covariance_is_kernel_plus_noise", M.mat_eq(vc.attr(gp, "K_xx"), st.C))
+    vc.ensures("factor_is_cholesky_of_kernel_plus_noise", M.mat_eq(vc.attr(gp, "L"), M.cholesky(st.C)))
+    vc.ensures("weights_solve_the_normal_equations", M.mat_eq(vc.attr(gp, "alpha"), st.Ci @ st.r))
+    vc.ensures("mean_vector_is_the_mean_function", M.mat_eq(vc.attr(gp, "mu"), st.mu))
+
+
+def _list_roles(func):
+    """the two result lists of a per-point loop: (the one fed with alpha, the other one)"""
+    loop = [n for n in ast.walk(func.node) if isinstance(n, ast.For)][0]
+    apps = []
+    for n in ast.walk(loop):
+        if isinstance(n, ast.Call) and isinstance(n.func, ast.Attribute) and n.func.attr == "append" \
+                and isinstance(n.func.value, ast.Name):
+            apps.append(n.func.value.id)
+    if len(apps) != 2:
+        raise Unsupported("per-point loop: expected two result lists")
+    return apps
+
+
+from contracts.gp_matrix import MapLoop as PerPoint, same_value as _same
+
+
+@contract("C02", "pointwise_prediction", native=False, replay_with="posterior_native")
+def pointwise_prediction(vc):
+    """__call__: for every query point t the returned mean is m(p_t) + K_tx (K+S)^-1 (y-m) and the returned standard
+    deviation is sqrt|K_tt - K_tx (K+S)^-1 K_xt|"""
+    from contracts.gp_matrix import GpState
+    st = GpState(vc)
+    gp = st.regressor()
+    pm, pc = st.post_mean(), st.post_cov()
+    func = vc.I.get_function(REG, "GpRegressor.__call__")
+    names = _list_roles(func)
+    exp_mu = lambda t: pm.at(t)
+    exp_var = lambda t: pc.at(t, t)
+    vc.loop("GpRegressor.__call__", "for#0", PerPoint(vc, st, names, exp_mu, exp_var))
+    mu, sd = vc.call(gp, "__call__", st.points)
+    vc.ensures("returns_one_value_per_point", vc.ndim(mu) == 1 and vc.ndim(sd) == 1)
+    vc.ensures_forall("mean_is_closed_form", st.m, lambda t: S.cmp("==", mu.at(t), pm.at(t)))
+    vc.ensures_forall("std_is_root_of_closed_form_variance", st.m,
+                      lambda t: S.cmp("==", sd.at(t), vc.sqrt(vc.abs(pc.at(t, t)))))
+    # the variance never exceeds the prior variance: K_tx C^-1 K_xt is a quadratic form of a positive-definite inverse
+    # (assumed fact of the layer: w^T C^-1 w >= 0), so K_tt - (.) <= K_tt
+    t = vc.index("t", st.m)
+    quad = (st.Kqx @ st.Ci @ st.Kqx.T).at(t, t)
+    vc.assume(S.cmp(">=", quad, 0))
+    vc.ensures("variance_at_most_prior_variance", S.cmp("<=", pc.at(t, t), st.Kqq.at(t, t)))
+
+
+@contract("C02", "joint_posterior", native=False, replay_with="posterior_native")
+def joint_posterior(vc):
+    """build_posterior: mean vector and covariance matrix are the closed form; mean_only returns the same mean"""
+    from contracts.gp_matrix import GpState
+    st = GpState(vc)
+    gp = st.regressor()
+    pm, pc = st.post_mean(), st.post_cov()
+    mean_only = vc.choice("mean_only", [False, True])
+    res = vc.call(gp, "build_posterior", st.points, mean_only=mean_only)
+    mu = res if mean_only else res[0]
+    vc.ensures("mean_is_one_value_per_point", vc.ndim(mu) == 1)
+    vc.ensures_forall("mean_is_closed_form", st.m, lambda t: S.cmp("==", mu.at(t), pm.at(t)))
+    if not mean_only:
+        vc.ensures("covariance_is_closed_form", M.mat_eq(res[1], pc))
+        vc.ensures_forall("covariance_is_symmetric", (st.m, st.m), lambda a, b: S.cmp("==", res[1].at(a, b), res[1].at(b, a)))
+
+
+@contract("C02", "noise_specification", native=False, replay_with="posterior_native")
+def noise_specification(vc):
+    """check_error_data: standard deviations give diag(y_err^2); a covariance matrix is used as given; nothing gives zeros"""
+    n = vc.int("n", lo=1)
+    mode = vc.choice("given", ["y_err", "y_cov", "none"])
+    gp = vc.obj(REG, "GpRegressor", n_points=n)
+    if mode == "y_err":
+        e = vc.vector("y_err", n)
+        sig = vc.call(gp, "check_error_data", e, None)
+        vc.ensures_forall("diagonal_of_squared_errors", (n, n),
+                          lambda i, j: S.cmp("==", sig.at(i, j), S.ite(S.cmp("==", i, j), S.mul(e.at(i), e.at(i)), 0)))
+    elif mode == "y_cov":
+        cv = vc.matrix("y_cov", n, n)
+        vc.assume_forall((n, n), lambda i, j: S.cmp("==", cv.at(i, j), cv.at(j, i)))
+        with vc.raising_allowed():
+            sig = vc.call(gp, "check_error_data", None, cv)
+        vc.ensures_forall("covariance_used_as_given", (n, n), lambda i, j: S.cmp("==", sig.at(i, j), cv.at(i, j)))
+    else:
+        sig = vc.call(gp, "check_error_data", None, None)
+        vc.ensures_forall("no_noise_is_zero_matrix", (n, n), lambda i, j: S.cmp("==", sig.at(i, j), 0))
